@@ -178,8 +178,14 @@ impl Grapheme {
 
 impl Display for Grapheme {
     fn fmt(&self, f: &mut Formatter<'_>) -> Result {
+        // A single character may have been escaped to a sequence such as \. or \d or \u{1f4a9}.
+        // A grapheme consisting of more code points needs a group, e.g. (?:ൎ\.){3}.
         let is_single_char = self.char_count(false) == 1
-            || (self.chars.len() == 1 && self.chars[0].matches('\\').count() == 1);
+            || (self.chars.len() == 1
+                && self.chars[0].matches('\\').count() == 1
+                && self.chars[0].starts_with('\\')
+                && (self.chars[0].chars().count() == 2
+                    || (self.chars[0].starts_with("\\u{") && self.chars[0].ends_with('}'))));
         let is_range = self.min < self.max;
         let is_repetition = self.min > 1;
         let mut value = if self.repetitions.is_empty() {
